@@ -101,7 +101,7 @@ def grid_float(tier):
     return out
 
 
-STR_TEXTS = ["", "a", "a b", "a=b", "-x", "--y=z", "\u00e9", "\u674e\u5eb7", "1", "true", " lead ",
+STR_TEXTS = ["", "a", "a b", "a=b", "-x", "--y=z", "my_app_db", "a_b-c_d", "\u00e9", "\u674e\u5eb7", "1", "true", " lead ",
              "a:b", "%s", "\\n", "'q'", '"dq"', "5:7", "None"]
 
 
@@ -247,6 +247,9 @@ def grid_timedelta(tier):
                 seen.add(text)
             else:
                 add(text, sum(v for _, v in ts), "three-terms")
+    for text, fr in (("1h 30m 1.5s", F(5400) + F(3, 2)), ("2 d 1h 30m", F(2 * 86400 + 5400)), ("1h 30m 45", F(5445)),
+                     ("1w 2 d 1h 30m -10s", F(604800 + 2 * 86400 + 5400 - 10))):
+        add(text, fr, "three-or-more-terms")
     add(" 45s ", F(45), "blank-padded-term")
     for t in ["abc", "1x", "1 parsecs", "h", "1hh", "1h x", "--1", "s1", "1 h m", "five", "1;5", "1:30:00", "1h;30m"]:
         out.append(E(t, None, "reject", "non-timedelta-text"))
@@ -365,12 +368,23 @@ def cfg_literals(tname, multiple):
         return lits
     lits = [("5.5j", "reject", None, "complex"), ("{'a': 1}", "reject", None, "dict"),
             ("object()", "reject", None, "object"), ("None", "either", NOVAL, "none")]
+    # (falsy values of the wrong type are wrong-typed too)
     if tname == "str":
         lits += [("5", "reject", None, "int-for-str"), ("b'x'", "reject", None, "bytes-for-str"),
-                 ("['a']", "reject", None, "list-for-scalar")]
+                 ("['a']", "reject", None, "list-for-scalar"), ("0", "reject", None, "int-for-str"),
+                 ("[]", "reject", None, "list-for-scalar"), ("b''", "reject", None, "bytes-for-str"),
+                 ("0.0", "reject", None, "float-for-str")]
     if tname == "int":
         lits += [("1.5", "reject", None, "float-for-int"), ("[1]", "reject", None, "list-for-scalar"),
-                 ("True", "either", NOVAL, "bool-for-int")]
+                 ("True", "either", NOVAL, "bool-for-int"), ("0.0", "reject", None, "float-for-int"),
+                 ("''", "reject", None, "str-for-int"), ("[]", "reject", None, "list-for-scalar")]
+    if tname in ("datetime", "timedelta"):
+        lits += [("[]", "reject", None, "list-for-scalar"), ("()", "reject", None, "tuple-for-scalar"),
+                 ("{}", "reject", None, "dict")]
+    if tname == "float":
+        lits += [("[]", "reject", None, "list-for-scalar"), ("()", "reject", None, "tuple-for-scalar")]
+    if tname == "bool":
+        lits += [("[]", "reject", None, "list-for-scalar"), ("0.0", "either", NOVAL, "float0-for-bool")]
     if tname == "float":
         lits += [("[1.5]", "reject", None, "list-for-scalar"), ("1", "either", NOVAL, "int-for-float")]
     if tname == "bool":
